@@ -52,12 +52,6 @@ Definition same_trisb (ts tris : list tri) : bool :=
 (* the statement asks for ONE winding for all triangles, not for a particular one: the implementation's set
    may be the model's (clockwise) set or its mirror image as a whole *)
 Definition qpt (p : Z * Z) : pt := (inject_Z (fst p), inject_Z (snd p)).
-Fixpoint edges_eqb (l m : list (nat * nat)) : bool :=
-  match l, m with
-  | [], [] => true
-  | e :: l', f :: m' => edge_eqb e f && edges_eqb l' m'
-  | _, _ => false
-  end.
 (* the centre of the circle through a, b, c (orient a b c <> 0), by the perpendicular-bisector equations —
    independent of the in-circle determinant *)
 Definition centre (a b c : pt) : pt :=
@@ -71,9 +65,14 @@ Definition centre (a b c : pt) : pt :=
 Definition corr_ok (c : case) : bool :=
   match c with
   | CPred a b c p inside ccw t es =>
+      (* InsideCircumcircle is compared where the algorithm uses it — on clockwise triangles (all values of
+         the determinant, zero included); what it answers for the other winding is not part of any contract.
+         Edges: the same three directed edges, in any order *)
       let P := [qpt a; qpt b; qpt c] in
-      Bool.eqb inside (in_circb P (0, 1, 2)%nat (qpt p)) && Bool.eqb ccw (ccwb P (0, 1, 2)%nat) &&
-      edges_eqb (edges t) es
+      (if Qltb (orient (qpt a) (qpt b) (qpt c)) 0
+       then Bool.eqb inside (in_circb P (0, 1, 2)%nat (qpt p)) else true) &&
+      Bool.eqb ccw (ccwb P (0, 1, 2)%nat) &&
+      (length es =? 3)%nat && forallb (fun e => existsb (edge_eqb e) es) (edges t)
   | CTri m _ _ gp pts tris _ sup _ _ =>
       if m then
         match bw (qpts pts) with
